@@ -1419,7 +1419,7 @@ func compileTableExpr(context *funcContext, reg int, ex *ast.TableExpr, ec *expc
 				c = arraycount/FieldsPerFlush + 1
 			}
 			b := num
-			if islast && isVarArgReturnExpr(field.Value) {
+			if islast && field.Key == nil && isVarArgReturnExpr(field.Value) {
 				b = 0
 			}
 			line := field.Value
